@@ -320,8 +320,8 @@ PROPS["C19"] = {
         {"name": "c19.ibb", "engine": "rapid", "quick": R(4, 1200), "thorough": R(8, 60000)},
         {"name": "c19.receiver", "engine": "rapid", "quick": R(4, 5000), "thorough": R(8, 300000)},
         {"name": "c19.socks", "engine": "rapid", "quick": R(4, 150), "thorough": R(8, 6000)},
-        {"name": "c19.wrap", "engine": "enum", "quick": {"workers": 3, "cases": 0, "params": {"max_block": 1, "faults": 1, "partition_depth": 2}, "max_seconds": 600},
-         "thorough": {"workers": 16, "cases": 0, "params": {"max_block": 3, "faults": 5, "partition_depth": 3}, "max_seconds": 3000}},
+        {"name": "c19.wrap", "engine": "enum", "quick": {"workers": 3, "cases": 0, "params": {"max_block": 1, "faults": 1, "partition_depth": 2, "case_timeout": 900}, "max_seconds": 600},
+         "thorough": {"workers": 16, "cases": 0, "params": {"max_block": 3, "faults": 5, "partition_depth": 3, "case_timeout": 900}, "max_seconds": 3000}},
     ],
 }
 
